@@ -252,10 +252,23 @@ func (v *formatter_) formatContext(collection any) {
 
 func (v *formatter_) formatFloat(float float64) {
 	var str = stc.FormatFloat(float, 'G', -1, 64)
-	if !sts.Contains(str, ".") && !sts.Contains(str, "E") {
-		str += ".0"
+	// Split off any exponent, for example "1.234567E+06" or "1E+21".
+	var mantissa, exponent = str, ""
+	var index = sts.Index(str, "E")
+	if index > -1 {
+		mantissa, exponent = str[:index], str[index+1:]
 	}
-	v.appendString(str)
+	// The notation requires a fraction in every float...
+	if !sts.Contains(mantissa, ".") && !sts.Contains(mantissa, "I") && !sts.Contains(mantissa, "N") {
+		mantissa += ".0"
+	}
+	// ...and a signed exponent without leading zeros.
+	if len(exponent) > 1 {
+		var sign = exponent[:1]
+		var digits = sts.TrimLeft(exponent[1:], "0")
+		mantissa += "E" + sign + digits
+	}
+	v.appendString(mantissa)
 }
 
 func (v *formatter_) formatInteger(integer int64) {
